@@ -10,6 +10,7 @@ import (
 	"path/filepath"
 	"regexp"
 	"runtime"
+	"runtime/debug"
 	"sort"
 	"strconv"
 	"strings"
@@ -250,7 +251,7 @@ func runUnit(c *CheckDef, tier string, seed uint64, i int) *UnitReport {
 		defer close(done)
 		defer func() {
 			if r := recover(); r != nil {
-				rep.Infra = fmt.Sprintf("harness panic in unit %d: %v", i, r)
+				rep.Infra = fmt.Sprintf("harness panic in unit %d: %v\n%s", i, r, debug.Stack())
 			}
 		}()
 		c.Run(u)
@@ -406,7 +407,7 @@ func runMain(id, tier string) int {
 		if v.Property == "" {
 			v.Property = id
 		}
-		if k := isKnown(known, v); k != nil {
+		if k := isKnown(known, v); k != nil && os.Getenv("VERIF_SHOW_KNOWN") == "" {
 			if !knownSeen[k.Class+k.ClassRe] {
 				knownSeen[k.Class+k.ClassRe] = true
 				fmt.Printf("KNOWN-FINDING: property=%s %s [%s%s]\n", v.Property, k.What, k.Class, k.ClassRe)
@@ -416,25 +417,25 @@ func runMain(id, tier string) int {
 		fresh = append(fresh, v)
 	}
 	cov := map[string]any{
-		"evaluations":           evals,
-		"distinct_nontrivial":   len(sigs),
-		"rule":                  c.Rule,
-		"samples":               samples,
-		"units_planned":         total,
-		"units_completed":       len(reports),
-		"intercepted_ops":       ops,
-		"scheduler_steps":       steps,
-		"simulated_time_s":      float64(simNs) / 1e9,
-		"runs_per_hour":         float64(evals) / wall * 3600,
-		"faults_fired_by_kind":  faults,
-		"probes":                probes,
-		"inconclusive":          inconcl,
-		"known_findings_seen":   len(knownSeen),
-		"components_real":       c.Real,
-		"components_stubbed":    c.Stub,
-		"workers":               nw,
-		"exhaustive_subspace":   c.Exhaust,
-		"exhaustive":            exhaustive && c.Exhaust != "",
+		"evaluations":          evals,
+		"distinct_nontrivial":  len(sigs),
+		"rule":                 c.Rule,
+		"samples":              samples,
+		"units_planned":        total,
+		"units_completed":      len(reports),
+		"intercepted_ops":      ops,
+		"scheduler_steps":      steps,
+		"simulated_time_s":     float64(simNs) / 1e9,
+		"runs_per_hour":        float64(evals) / wall * 3600,
+		"faults_fired_by_kind": faults,
+		"probes":               probes,
+		"inconclusive":         inconcl,
+		"known_findings_seen":  len(knownSeen),
+		"components_real":      c.Real,
+		"components_stubbed":   c.Stub,
+		"workers":              nw,
+		"exhaustive_subspace":  c.Exhaust,
+		"exhaustive":           exhaustive && c.Exhaust != "",
 	}
 	ev := evidence{PropertyID: id, Tier: tier, Seed: int64(seed), Level: c.Level, Coverage: cov, Assumptions: c.Assume, WallS: wall, Violations: len(fresh)}
 	if ev.Assumptions == nil {
